@@ -195,11 +195,11 @@ HARNESSES = {"powtrace": h_powtrace, "hessenberg": h_hessenberg, "cpp_permanent"
 
 def instances(tier):
     out = [("powtrace", {"dim": d, "pow_max": p}) for d, p in ((2, 2), (2, 5), (3, 3), (3, 7), (4, 4), (4, 6))]
-    out += [("cpp_permanent", {"rows": list(r), "cols": list(c)}) for r, c in (((1, 1), (1, 1)), ((2, 1), (1, 2)), ((0, 2), (1, 1)), ((1, 1, 1), (1, 1, 1)), ((2, 0, 1), (1, 1, 1)), ((2, 2), (3, 1)), ((1, 2, 1), (2, 0, 2)), ((3, 2), (4, 1)), ((2, 2, 1), (1, 3, 1)), ((2, 1, 0, 2), (1, 1, 2, 1)))]
+    out += [("cpp_permanent", {"rows": list(r), "cols": list(c)}) for r, c in (((1, 1), (1, 1)), ((2, 1), (1, 2)), ((0, 2), (1, 1)), ((1, 1, 1), (1, 1, 1)), ((2, 0, 1), (1, 1, 1)), ((2, 2), (3, 1)), ((1, 2, 1), (2, 0, 2)), ((3, 2), (4, 1)), ((2, 2, 1), (1, 3, 1)))]
     out += [("cpp_permanent", {"rows": list(r), "cols": list(c), "kernel": "laplace"}) for r, c in (((1, 1), (2, 1)), ((2, 1), (2, 2)), ((1, 0, 1), (1, 1, 1)), ((2, 2), (3, 2)), ((0, 2, 1), (2, 1, 1)))]
     out += [("cpp_weights", {"total": 24}), ("cpp_weights", {"total": 40})]
     if tier == "thorough":
-        out += [("cpp_permanent", {"rows": list(r), "cols": list(c)}) for r, c in (((1, 1, 1, 1), (1, 1, 1, 1)), ((4, 2, 1), (2, 3, 2)), ((3, 3, 1), (2, 2, 3)))]
+        out += [("cpp_permanent", {"rows": list(r), "cols": list(c)}) for r, c in (((1, 1, 1, 1), (1, 1, 1, 1)), ((2, 1, 0, 2), (1, 1, 2, 1)), ((4, 2, 1), (2, 3, 2)))]
         out += [("cpp_weights", {"total": 48})]
     if tier == "thorough":
         out += [("powtrace", {"dim": 5, "pow_max": 7}), ("powtrace", {"dim": 6, "pow_max": 6})]
